@@ -165,6 +165,10 @@ def writers_for(case):
 TAG_OF = {"cust": 1, "upd": 2, "ecc": 3}
 
 
+def tag_of(b):
+    return b["tag"] if b["kind"] == "unknown" else TAG_OF[b["kind"]]
+
+
 def obs_authblock(ab):
     if isinstance(ab, B2.InitCustKeyAuthBlock):
         return dict(kind="cust", tag=ab.tag)
